@@ -112,9 +112,25 @@ def may_write(prog, rep):
             elif r in alias:
                 alias[nm] = alias[r]
 
+        # a parameter name that is unconditionally (top-level statement of the body) rebound to a fresh value no longer stands for the
+        # argument afterwards - unless it is assigned something that is not fresh later on
+        killed = {}
+        for st in f.node.body:
+            if isinstance(st, ast.Assign) and len(st.targets) == 1 and isinstance(st.targets[0], ast.Name) and st.targets[0].id in ps \
+                    and is_fresh_expr(st.value) and st.targets[0].id not in killed:
+                nm = st.targets[0].id
+                later_unfresh = any(isinstance(m, (ast.Assign, ast.AugAssign, ast.AnnAssign, ast.NamedExpr, ast.For, ast.With)) and m is not st
+                                    and getattr(m, "lineno", 0) > st.lineno
+                                    and any(isinstance(t, ast.Name) and t.id == nm and isinstance(t.ctx, ast.Store) for t in ast.walk(m))
+                                    and not (isinstance(m, ast.Assign) and is_fresh_expr(m.value)) for m in body_nodes)
+                if not later_unfresh:
+                    killed[nm] = st.end_lineno or st.lineno
+
         def rooted(expr):
             r = root_name(expr)
             if r in ps:
+                if r in killed and getattr(expr, "lineno", 0) > killed[r]:
+                    return None
                 return r
             if r in alias:
                 return alias[r]
